@@ -51,7 +51,7 @@ class Prop:
             "result that needed >= 2 terms; distinct = distinct sha256 of the event log")
     probes = ["k2", "k3", "k4", "herm_adjpair", "herm_sandwich", "herm_nonadjoint", "domain_float", "domain_tracer",
               "result_one", "result_zero", "result_value", "multi_term_result", "discipline_checked", "highest_order_checked", "highest_order_truth_checked",
-              "op_array", "op_view", "repeat_cached", "op_mul", "op_rmul", "known0_pattern", "view_factor", "twin_product", "late_eval_factor", "tiny_scale", "dynamic_discipline_checked", "factor_chain_dep", "family_R", "recurrent_W1", "recurrent_W2", "recurrent_W3", "recurrent_compared", "known_finding_signature_hits"]
+              "op_array", "op_view", "repeat_cached", "op_mul", "op_rmul", "known0_pattern", "view_factor", "twin_product", "same_object_factors", "late_eval_factor", "tiny_scale", "dynamic_discipline_checked", "factor_chain_dep", "family_R", "recurrent_W1", "recurrent_W2", "recurrent_W3", "recurrent_compared", "known_finding_signature_hits"]
     components_real = ["pymablock.series.cauchy_dot_product, product_by_order, BlockSeries"]
     components_stub = ["factor series eval callbacks (simulator-owned tables, call log)", "element multiplication wrapper (logging)",
                        "tracer element type (exact free *-algebra)"]
@@ -332,6 +332,12 @@ class Prop:
         cap = {1: 4, 2: 3, 3: 2}[ninf]
         case = {"K": K, "ninf": ninf, "dims": dims, "herm": herm, "domain": domain, "op": opname, "factors": factors,
                 "sizes": [r.choice([1, 2]) for _ in range(3)], "cap": cap}
+        if herm == "none" and r.random() < 0.1:
+            # the same caller series used for two (or all) factors of the product: cauchy_dot_product(A, A[, A])
+            dd = dims[0]
+            case["dims"] = [dd] * (K + 1)
+            case["same_object"] = sorted(r.sample(range(K), 2)) if K > 2 and r.random() < 0.5 else list(range(K))
+            dims = case["dims"]
         if r.random() < 0.12:
             # a factor handed over as a finite-index *view* of the caller's series (full slices / permutation-free lists)
             case["view_factor"] = [r.randrange(K), r.choice(["ss", "ls", "sl"])]
@@ -489,7 +495,7 @@ class Prop:
                 events.append(("f", k, index))
                 depth[0] += 1
                 try:
-                    if depth[0] == 1 and K == 2 and cur["cells"] and not case.get("view_factor"):
+                    if depth[0] == 1 and K == 2 and cur["cells"] and not case.get("view_factor") and not case.get("same_object"):
                         # dynamic discipline: at this very moment some term of a requested cell must pair this element
                         # with a partner that is not known to be absent
                         ok = False
@@ -549,6 +555,12 @@ class Prop:
         else:
             base = _op.mul if case["op"] == "mul" else _op.matmul
 
+        so = case.get("same_object")
+        if so and all(k < K for k in so):
+            for k in so[1:]:
+                factors[k] = factors[so[0]]
+                tables[k] = tables[so[0]]
+            bump("same_object_factors")
         roots = list(factors)  # the caller's own series (a factor may be handed over as a view of one)
         vf = case.get("view_factor")
         if vf and vf[0] < K:
@@ -725,8 +737,8 @@ class Prop:
                 fail("cached-product-reevaluates", f"op#{opi} {op}: repeated request evaluated factor elements {new[:3]}")
             requested.update(must)
             # (3) discipline (not for view factors: a packed view evaluates the whole block row/column of an order)
-            if vf:
-                new = []
+            if vf or case.get("same_object"):
+                new = []  # one series object serving as several factors: the call log cannot tell the roles apart
             req_orders = {c[2:] for c in must}
             truth = None
             for (k, idx) in new:
